@@ -101,3 +101,15 @@ Definition m_authzresp_idt (x : idt_resp_case) : res (bool * msg) :=
     else oidc_tokenresp_verify_idt (lhash_of tbl) issuers c ic now kw t m)).
 Definition chk_authzresp_idt (x : idt_resp_case * res (bool * msg)) : bool :=
   res_eqb bm_eqb (m_authzresp_idt (fst x)) (snd x).
+
+(* backchannel_authentication.AuthenticationRequest.verify (Model/MsgRules.v ciba_authn_verify):
+   (class, AuthenticationRequestJWT class, IdToken class, kwargs without the key jar, the request object and the
+   id_token_hint symbolically, message before) vs the message afterwards *)
+Definition ciba_case := (pystr * pystr * pystr * msg * token * token * msg)%type.
+Definition m_ciba (x : ciba_case) : res msg :=
+  let '(n, rjn, icn, kw, rt, ht, m) := x in
+  with_class n (fun c => with_class rjn (fun rjc => with_class icn (fun ic => ciba_authn_verify c rjc ic kw rt ht m))).
+Definition chk_ciba (x : ciba_case * res msg) : bool := res_msg_eqb (m_ciba (fst x)) (snd x).
+(* Message.has_none_or_one_of(claims) on a message: (claims, message) vs the answer *)
+Definition m_none_or_one (x : list pystr * msg) : res bool := Ok (msg_has_none_or_one_of (fst x) (snd x)).
+Definition chk_none_or_one (x : list pystr * msg * res bool) : bool := res_eqb Bool.eqb (m_none_or_one (fst x)) (snd x).
